@@ -192,7 +192,7 @@ Lemma xinv_step v s e s' : tinv s -> xinv s -> step v s e = Some s' -> xinv s'.
 Proof.
   intros Ht Hx Hs. unfold xinv in *.
   assert (Hclk : clock s <= clock s').
-  { destruct s as [q0 run0 rst0 stp0 sch0 clk0 lp0 ex0 cl0 exd0]. destruct e; cbn in Hs.
+  { destruct s as [q0 run0 rst0 stp0 sch0 clk0 lp0 ex0 cl0 exd0 cw0 cr0]. destruct e; cbn in Hs.
     all: open_step Hs; cbn; zb; lia. }
   assert (Hmono : Forall (fun p => idue (fst p) - threshold < snd p /\ snd p <= clock s') (executed s)).
   { eapply Forall_impl; [|exact Hx]. cbn beta. intros p [Ha Hb]. split; [exact Ha | lia]. }
@@ -315,7 +315,7 @@ Example no_stranding_nonvacuous :
   exists evs s, run Fixed init evs = Some s /\ stopped s = false /\ q s <> [] /\ serving s = true.
 Proof.
   exists [EvEnq (mkItem 1 1000000 7) 0; EvLoop ChStep 0],
-    (mkState [mkItem 1 1000000 7] true false false false 0 (LChecked (mkItem 1 1000000 7)) 0 CNone []).
+    (mkState [mkItem 1 1000000 7] true false false false 0 (LChecked (mkItem 1 1000000 7)) 0 CNone [] 0 0).
   repeat split; try reflexivity. discriminate.
 Qed.
 
@@ -338,10 +338,10 @@ Proof.
     - destruct (step v s e) as [s1|] eqn:Es; [|discriminate].
       assert (H1 : loop s1 = LNone /\ exiting s1 = 0%nat /\ close s1 = CNone /\
                    q s1 = q s /\ executed s1 = executed s).
-      { destruct s as [q0 run0 rst0 stp0 sch0 clk0 lp0 ex0 cl0 exd0]. cbn in Hl, He, Hc. subst.
+      { destruct s as [q0 run0 rst0 stp0 sch0 clk0 lp0 ex0 cl0 exd0 cw0 cr0]. cbn in Hl, He, Hc. subst.
         destruct He0 as [Hi|[d ->]].
-        - destruct e; cbn in Hi; try discriminate Hi; cbn in Es; try discriminate Es;
-            destruct c; discriminate Es.
+        - destruct e; cbn in Hi; try discriminate Hi; cbn in Es; try discriminate Es.
+          destruct cw0; [discriminate Es|]. inversion Es; subst. cbn. auto.
         - cbn in Es. destruct (d <? 0); [discriminate|]. inversion Es; subst. cbn. auto. }
       destruct H1 as [Hl1 [He1 [Hc1 [Hq1 Hx1]]]].
       destruct (IH s1 Hl1 He1 Hc1 Hrun) as [Ha [Hb Hc']].
@@ -364,7 +364,7 @@ Definition strand_schedule : list event :=
     EvDone ].
 
 Definition strand_state : state :=
-  mkState [strand_b] false true false false 0 LNone 0 CNone [(strand_a, 0)].
+  mkState [strand_b] false true false false 0 LNone 0 CNone [(strand_a, 0)] 0 0.
 
 Lemma stranding_refuted :
   exists evs s b,
@@ -392,3 +392,93 @@ Qed.
 Example strand_schedule_fixed :
   option_map (fun s => (serving s, running s, q s)) (run Fixed init strand_schedule) = Some (true, true, [strand_b]).
 Proof. vm_compute. reflexivity. Qed.
+
+(* ---- C06_close for every further Close call ---------------------------------------------- *)
+
+(* A Close call whose CompareAndSwap fails skips the if-body and only runs the deferred
+   p.wg.Wait().  [EvClose2Ret] is that Wait returning. *)
+
+(* the loop is absent or on a path that cannot reach execute() once the stop channel is closed *)
+Definition cannot_execute (l : lpc) : Prop :=
+  match l with LNone | LTop | LChecked _ | LStopExit | LEmptyExit => True | _ => False end.
+
+Lemma stop_quiet_step v s e s' :
+  stopch s = true -> cannot_execute (loop s) -> step v s e = Some s' ->
+  stopch s' = true /\ cannot_execute (loop s') /\ executed s' = executed s.
+Proof.
+  destruct s as [q0 run0 rst0 stp0 sch0 clk0 lp0 ex0 cl0 exd0 cw0 cr0]. cbn [stopch loop executed].
+  intros -> Hl Hs. destruct e; cbn in Hs.
+  all: open_step Hs; cbn in *; auto; try contradiction.
+Qed.
+
+Definition not_client (e : event) : Prop :=
+  match e with EvEnq _ _ | EvDeq _ _ => False | _ => True end.
+
+Lemma no_loop_step v s e s' :
+  loop s = LNone -> not_client e -> step v s e = Some s' ->
+  loop s' = LNone /\ executed s' = executed s.
+Proof.
+  destruct s as [q0 run0 rst0 stp0 sch0 clk0 lp0 ex0 cl0 exd0 cw0 cr0]. cbn [loop executed].
+  intros -> Hc Hs. destruct e; cbn in Hc; try contradiction; cbn in Hs.
+  all: open_step Hs; cbn; auto.
+Qed.
+
+Lemma no_loop_run v : forall evs s s',
+  loop s = LNone -> Forall not_client evs -> run v s evs = Some s' ->
+  loop s' = LNone /\ executed s' = executed s.
+Proof.
+  induction evs as [|e evs IH]; intros s s' Hl Hf Hrun; cbn [run] in Hrun.
+  - inversion Hrun; subst. auto.
+  - inversion Hf as [|? ? He Hf']; subst.
+    destruct (step v s e) as [s1|] eqn:Es; [|discriminate].
+    destruct (no_loop_step _ _ _ _ Hl He Es) as [Hl1 Hx1].
+    destruct (IH s1 s' Hl1 Hf' Hrun) as [Hl' Hx']. split; [exact Hl' | congruence].
+Qed.
+
+Lemma close2_final v s s1 evs' s' :
+  step v s EvClose2Ret = Some s1 -> run v s1 evs' = Some s' ->
+  (* when it returns no loop goroutine exists or is on its way out: no callback is running *)
+  loop s = LNone /\ exiting s = 0%nat /\ cret s1 = S (cret s) /\
+  (* and none will run: unconditionally once the stop channel is closed ... *)
+  (stopch s = true -> executed s' = executed s) /\
+  (* ... and, before that instant, unless the locked body of an Enqueue/Dequeue that passed the
+     stopped test before Close was called runs afterwards *)
+  (Forall not_client evs' -> executed s' = executed s /\ loop s' = LNone).
+Proof.
+  intros Hs Hrun.
+  assert (H0 : loop s = LNone /\ exiting s = 0%nat /\ cret s1 = S (cret s) /\
+               loop s1 = LNone /\ executed s1 = executed s /\ stopch s1 = stopch s).
+  { destruct s as [q0 run0 rst0 stp0 sch0 clk0 lp0 ex0 cl0 exd0 cw0 cr0]. cbn in Hs.
+    destruct cw0; [discriminate|]. destruct lp0; try discriminate. destruct ex0; [|discriminate].
+    inversion Hs; subst. cbn. auto 10. }
+  destruct H0 as [Hl [He [Hc [Hl1 [Hx1 Hst1]]]]].
+  split; [exact Hl|]. split; [exact He|]. split; [exact Hc|]. split.
+  - intros Hst.
+    assert (H : stopch s' = true /\ cannot_execute (loop s') /\ executed s' = executed s).
+    { refine (run_inv v (fun s' => stopch s' = true /\ cannot_execute (loop s') /\ executed s' = executed s)
+                _ evs' s1 s' _ Hrun).
+      - intros sa e sb [Ha [Hb Hd]] Hstep.
+        destruct (stop_quiet_step _ _ _ _ Ha Hb Hstep) as [Ha' [Hb' Hd']].
+        split; [exact Ha'|]. split; [exact Hb' | congruence].
+      - rewrite Hst1, Hl1. split; [exact Hst|]. split; [exact I | exact Hx1]. }
+    apply H.
+  - intros Hf. destruct (no_loop_run v evs' s1 s' Hl1 Hf Hrun) as [Hl' Hx'].
+    split; [congruence | exact Hl'].
+Qed.
+
+(* Why the second clause of [close2_final] has a side condition: a Close call that loses the
+   CompareAndSwap can return BEFORE the winning call has closed the stop channel; an Enqueue whose
+   unlocked stopped test was passed before Close was called and whose locked body runs after that
+   return still starts a loop, and that loop still runs the item.  (Needs three goroutines in
+   flight at once: Enqueue past its test, the winning Close between CompareAndSwap and
+   close(stopCh), and the losing Close.  The winning call is not affected: it returns only after
+   taking the running token.) *)
+Example close2_inflight_enqueue :
+  exists evs s, run Fixed init evs = Some s /\ cret s = 1%nat /\ stopch s = false /\
+    exists evs' s', run Fixed s evs' = Some s' /\ executed s' <> executed s.
+Proof.
+  exists [EvCloseCAS; EvClose2; EvClose2Ret]. eexists. split; [vm_compute; reflexivity|].
+  split; [reflexivity|]. split; [reflexivity|].
+  exists [EvEnq (mkItem 1 0 1) 0; EvLoop ChStep 0; EvLoop ChStep 0; EvLoop ChStep 0; EvLoop ChStep 0].
+  eexists. split; [vm_compute; reflexivity|]. cbn. discriminate.
+Qed.
